@@ -144,8 +144,25 @@ def describe_outcome(o):
     return (o.kind, str(o.where))
 
 
-def perform(inst, kind, call):
-    """One call on *inst*; returns the result descriptor."""
+def perform(inst, kind, call, keep=None):
+    """One call on *inst*; returns the result descriptor.  call["warn"]:
+    "error" = the caller runs with warnings turned into errors (python -W
+    error), "record" = the warnings issued during the call are part of the
+    result.  *keep*: list that receives the returned object itself."""
+    mode = call.get("warn")
+    if not mode:
+        return _perform(inst, kind, call, keep)
+    import warnings
+    with warnings.catch_warnings(record=(mode == "record")) as rec:
+        warnings.simplefilter("error" if mode == "error" else "always")
+        d = _perform(inst, kind, call, keep)
+        if mode == "record":
+            d = d + (("warnings",) + tuple(
+                w.category.__name__ for w in rec),)
+    return d
+
+
+def _perform(inst, kind, call, keep=None):
     r = role(kind)
     if r == "parser":
         plan = call.get("plan")
@@ -161,6 +178,8 @@ def perform(inst, kind, call):
                 o = core.guarded(lambda: inst.parse(text), len(text))
         finally:
             inst.lexer = saved
+        if keep is not None and o.kind == "ok":
+            keep.append(o.value)
         return describe_outcome(o)
     if r == "encoder":
         try:
@@ -246,7 +265,9 @@ class C16(Property):
                        "probe.call-after-empty-value-load",
                        "probe.shared-instance", "probe.cold-compared",
                        "probe.encoder-history", "probe.decoder-history",
-                       "probe.long-history"]
+                       "probe.long-history", "probe.warnings-error",
+                       "probe.warnings-record",
+                       "probe.earlier-result-rechecked"]
 
     def kinds(self):
         ks = ["parser:" + c for c in dialects.CONFIGS] * 3
@@ -364,9 +385,33 @@ class C16(Property):
         inst = make_instance(kind)
         vs = []
         prev_failed = prev_aborted = prev_empty = False
+        earlier = []     # (call index, returned module, its description)
         for i, call in enumerate(calls):
-            got = perform(inst, kind, call)
+            kept = []
+            got = perform(inst, kind, call, kept)
             ref = fresh_result(kind, call)
+            # results handed out earlier stay what they were
+            for j, val, desc in earlier[:2] + earlier[2:][-6:]:
+                now = describe_outcome(core.Outcome("ok", value=val))
+                if now != desc:
+                    vs.append(Violation(
+                        "earlier-result-changed",
+                        "%s: the result of call %d was %s; after call %d on "
+                        "the same instance that very object reads %s" % (
+                            kind, j + 1, str(desc)[:300], i + 1,
+                            str(now)[:300]),
+                        {"kind": kind, "calls": calls[:i + 1]},
+                        raw_sig="earlier-result-changed|%s|%s" % (
+                            role(kind), kind.split(":")[1])))
+                    break
+            if vs:
+                break
+            if kept and isinstance(kept[0],
+                                   pvl.collections.OrderedMultiDict):
+                earlier.append((i, kept[0], describe_outcome(
+                    core.Outcome("ok", value=kept[0]))))
+                if out is not None and len(earlier) > 1:
+                    out.inc("probe.earlier-result-rechecked")
             if out is not None:
                 out.evals += 2
                 out.log.ev("call", i, json.dumps(call, sort_keys=True),
@@ -413,6 +458,12 @@ class C16(Property):
         out = RunOut()
         kind = rng.choice(self.kinds())
         calls = self.gen_calls(rng, kind, out)
+        if rng.random() < 0.12:
+            # a caller that turns warnings into errors, or records them
+            mode = rng.choice(["error", "record"])
+            for c in calls:
+                c["warn"] = mode
+            out.inc("probe.warnings-" + mode)
         out.log.ev("instance", kind)
         if kind.startswith("shared"):
             out.inc("probe.shared-instance")
